@@ -233,6 +233,22 @@ func c14Tree(a *ChildArgs, sql string) {
 	a.Rec.Distinct("cases", "tree:"+sql)
 	c14Prune(a, tree, sql)
 	vis := inspectAll(tree, false)
+	// the tree handed over by value (ast.AST implements Node with value receivers) is the same tree
+	byValue := 0
+	ast.Inspect(*tree, func(n ast.Node) bool {
+		if n == nil {
+			return false
+		}
+		if rv := reflect.ValueOf(n); rv.Kind() == reflect.Ptr && rv.IsNil() {
+			return false
+		}
+		byValue++
+		return true
+	})
+	if byValue != vis.n {
+		a.Rec.Viol("C14/by-value/visit-count", "walking visits every node reachable through the tree's own fields",
+			fmt.Sprintf("ast.Inspect(*tree) visits %d nodes, ast.Inspect(tree) %d", byValue, vis.n), map[string]interface{}{"sql": sql})
+	}
 	reach := collectReachable(tree, func(r reachNode) bool {
 		if r.IsPtr {
 			return vis.ptrs[r.Ptr] > 0
@@ -476,6 +492,22 @@ func c14Child(a *ChildArgs) {
 					items = append(items, fmt.Sprintf("g(c%d)", k))
 				}
 				c14Tree(a, "SELECT "+strings.Join(items, ", ")+" FROM t WHERE a IN ("+strings.Join(items, ", ")+") ORDER BY last_col")
+			}
+		}
+		if a.Shard == 0 {
+			// shapes the model grammar does not draw: rows of different widths, data-modifying CTE bodies, several
+			// CASE arms, value-typed nodes (ALTER ... RENAME TO), the tree passed by value
+			for _, sql := range []string{
+				"INSERT INTO audit (id) VALUES (1), (2, (SELECT secret FROM vault WHERE f(x) = 0)), (3, 4, g(5))",
+				"INSERT INTO t (a, b) VALUES (1, 2, 3), (4), (5, h(6), (SELECT k FROM u))",
+				"WITH moved AS (DELETE FROM old_orders WHERE created < cutoff(days) RETURNING id, total) INSERT INTO archive (id, total) SELECT id, total FROM moved",
+				"WITH up AS (UPDATE t SET a = f(b) WHERE c IN (SELECT d FROM u) RETURNING a), ins AS (INSERT INTO v (x) VALUES (g(1)) RETURNING x) SELECT * FROM up, ins",
+				"SELECT CASE WHEN a = f(1) THEN g(2) WHEN b = (SELECT m FROM w1) THEN h(3) WHEN c THEN (SELECT n FROM w2) ELSE k(4) END FROM t",
+				"SELECT CASE x WHEN f(1) THEN 1 WHEN g(2) THEN 2 WHEN h(3) THEN 3 END FROM t",
+				"ALTER TABLE users RENAME TO customers", "ALTER TABLE s.users RENAME COLUMN a TO b", "ALTER TABLE users ADD COLUMN c INT",
+				"SELECT ARRAY[1, f(2), (SELECT z FROM q)] , ARRAY(SELECT y FROM r) FROM t",
+			} {
+				c14Tree(a, sql)
 			}
 		}
 		if a.Shard == 1 {
